@@ -9,7 +9,7 @@ EXPLANATION = ('Static rules on the five subject types (instances of the same ma
                'one live range of the `observers` guard; J2 every notification first moves the waiting subscribers from the side list into '
                'the live list (load) and subscribe only ever pushes into the side list; J3 terminals take() the live list, unsubscribe takes '
                'both lists, is_finished/is_closed answer "live list is None", subscribing to an unsubscribed subject yields an empty '
-               'subscriber; J4 the terminal broadcast skips closed subscribers; J8 is_empty()/len() count the waiting chamber only while the live list is open (a finished subject is empty); J7 unsubscribe() closes the live list before the waiting chamber, the order load()/len()/is_empty() rely on (same rule as C10.L6); J6 the live list is not edited during a broadcast (every present subscriber is visited once); J5 the stored subscriber handle delivers under its slot guard and never re-fills its slot (unsubscribe-one is effective and final). Decides the mechanism behind "a subscriber added during an '
+               'subscriber; J4 the terminal broadcast skips closed subscribers; J9 is_empty()/len() are pure reads; J8 is_empty()/len() count the waiting chamber only while the live list is open (a finished subject is empty); J7 unsubscribe() closes the live list before the waiting chamber, the order load()/len()/is_empty() rely on (same rule as C10.L6); J6 the live list is not edited during a broadcast (every present subscriber is visited once); J5 the stored subscriber handle delivers under its slot guard and never re-fills its slot (unsubscribe-one is effective and final). Decides the mechanism behind "a subscriber added during an '
                'emission does not see the in-flight item"; does not decide exactly-once delivery over join/leave histories.')
 ASSUMPTIONS = ['SmallVec keeps insertion order; RefCell/Mutex guards give exclusive access']
 
@@ -70,7 +70,21 @@ def _lists(cx, adt_path):
 
 
 def check(cx):
-    return _check(cx) + j7(cx) + j8(cx)
+    return _check(cx) + j7(cx) + j8(cx) + j9(cx)
+
+
+def j9(cx):
+    """is_empty()/len() are pure reads (shared guards only, no effect)"""
+    if cx.control:
+        return []
+    from . import c03
+    F = cx.facts
+    subs = _subjects(cx)
+    fns = []
+    for im in F.impls.values():
+        if roles.impl_tag(cx, im) in subs and (im.get('trait') or '').rsplit('::', 1)[-1] == 'SubjectSize':
+            fns += [F.fns[f['key']] for f in im.get('fns', []) if f['key'] in F.fns and f['n'] in ('is_empty', 'len')]
+    return c03.query_findings(cx, fns, ID, 'J9', 'the size query')
 
 
 def j8(cx):
